@@ -1081,10 +1081,18 @@ func c18Context(c *Ctx) {
 					if v == cmp || isConstBool(v, true) {
 						return true
 					}
+					// a further test of the text that follows the token does not narrow what expansion produced:
+					// expansion itself decides what follows a keyword it writes (white space or `{`)
+					if followingTextOnly(fn, v) {
+						return true
+					}
 					if ph, ok := v.(*ssa.Phi); ok {
 						for idx, e := range ph.Edges {
 							pred := ph.Block().Preds[idx]
 							// an edge that can only be taken when the comparison is false does not matter
+							if iff := ifOf(pred); iff != nil && iff.Cond == cmp && pred.Succs[1] == ph.Block() && pred.Succs[0] != ph.Block() {
+								continue // the false edge of the branch on the comparison itself
+							}
 							if !reachableWhenTrue(fn, cmp, pred) {
 								continue
 							}
@@ -1096,6 +1104,44 @@ func c18Context(c *Ctx) {
 					}
 					return false
 				}
+				kk := 0
+				eachInstr(fn, func(_ *ssa.BasicBlock, _ int, ins ssa.Instruction) {
+					r, ok := ins.(*ssa.Return)
+					if !ok || !cmp.(ssa.Instruction).Block().Dominates(r.Block()) {
+						return
+					}
+					kk++
+					k := kk
+					// and the converse, for the predicate of compaction (the one that is asked about words): expansion writes
+					// a keyword only at the start of a line, so a word anywhere else was written by the programmer
+					if isKeywordPredicate(fn) {
+						var falseGiven func(v ssa.Value, at *ssa.BasicBlock, d int) bool
+						falseGiven = func(v ssa.Value, at *ssa.BasicBlock, d int) bool {
+							if d > 6 {
+								return false
+							}
+							if v == cmp || isConstBool(v, false) {
+								return true
+							}
+							if ph, ok := v.(*ssa.Phi); ok {
+								for idx, e := range ph.Edges {
+									pred := ph.Block().Preds[idx]
+									if !reachableOnSide(fn, cmp, pred, 1) {
+										continue
+									}
+									if !falseGiven(e, pred, d+1) {
+										return false
+									}
+								}
+								return true
+							}
+							return false
+						}
+						if reachableOnSide(fn, cmp, r.Block(), 1) {
+							c.ob("C18-R9", fnKey(fn)+"#only-at-line-start-"+itoa(k), r.Pos(), falseGiven(retVals(r)[0], r.Block(), 0), "the predicate of compaction can answer true for a word that does not start its line (inside any block): expansion never writes a keyword there, so the word is the program's own identifier - `{validate: true}` comes back as `{?: true}`, `input.use` as `input.%` and the round trip no longer parses")
+						}
+					}
+				})
 				eachInstr(fn, func(_ *ssa.BasicBlock, _ int, ins ssa.Instruction) {
 					r, ok := ins.(*ssa.Return)
 					if !ok || !reachableWhenTrue(fn, cmp, r.Block()) {
@@ -1375,4 +1421,93 @@ func wholeText(v ssa.Value) bool {
 		}
 	}
 	return false
+}
+
+// reachableOnSide: like reachableWhenTrue, for the given successor index of the branch on cmp (0 true, 1 false).
+func reachableOnSide(fn *ssa.Function, cmp ssa.Value, b *ssa.BasicBlock, side int) bool {
+	var branch *ssa.BasicBlock
+	for _, blk := range fn.Blocks {
+		if iff := ifOf(blk); iff != nil && iff.Cond == cmp {
+			branch = blk
+		}
+	}
+	if branch == nil || b == branch {
+		return true
+	}
+	seen := map[*ssa.BasicBlock]bool{}
+	stack := []*ssa.BasicBlock{branch.Succs[side]}
+	for len(stack) > 0 {
+		x := stack[len(stack)-1]
+		stack = stack[:len(stack)-1]
+		if seen[x] {
+			continue
+		}
+		seen[x] = true
+		if x == b {
+			return true
+		}
+		stack = append(stack, x.Succs...)
+	}
+	return false
+}
+
+// isKeywordPredicate: the context predicate that compaction asks about a word - the bool function of the formatter
+// that is called with the word read in the compact branch of transform (its argument is a slice of the source text).
+func isKeywordPredicate(fn *ssa.Function) bool {
+	if fn.Pkg == nil {
+		return false
+	}
+	tr := fn.Pkg.Func("transform")
+	if tr == nil {
+		return false
+	}
+	r := false
+	eachCall(tr, func(cl ssa.CallInstruction) {
+		if staticFn(cl) != fn {
+			return
+		}
+		for _, a := range cl.Common().Args {
+			if _, isSlice := a.(*ssa.Slice); isSlice {
+				r = true
+			}
+		}
+	})
+	return r
+}
+
+// followingTextOnly: v is decided from the text after the token alone - (the negation of) a call whose arguments are
+// slices source[pos+k:] of the function's text parameter that start behind the position parameter.
+func followingTextOnly(fn *ssa.Function, v ssa.Value) bool {
+	if u, ok := v.(*ssa.UnOp); ok && u.Op == token.NOT {
+		v = u.X
+	}
+	cl, ok := v.(*ssa.Call)
+	if !ok || len(cl.Call.Args) == 0 {
+		return false
+	}
+	for _, a := range cl.Call.Args {
+		sl, ok := a.(*ssa.Slice)
+		if !ok || sl.High != nil || sl.Low == nil {
+			return false
+		}
+		if p, isP := sl.X.(*ssa.Parameter); !isP || p.Parent() != fn || !isStringType(p.Type()) {
+			return false
+		}
+		bo, ok := sl.Low.(*ssa.BinOp)
+		if !ok || bo.Op != token.ADD {
+			return false
+		}
+		fromPos := false
+		for _, op := range []ssa.Value{bo.X, bo.Y} {
+			if p, isP := op.(*ssa.Parameter); isP && p.Parent() == fn {
+				if bt, ok := p.Type().Underlying().(*types.Basic); ok && bt.Info()&types.IsInteger != 0 {
+					fromPos = true
+				}
+			}
+		}
+		if !fromPos {
+			return false
+		}
+	}
+	return true
 }
